@@ -96,6 +96,20 @@ def has_literal_left_comparison(prog):
     return any(literal_left_comparison(n) for st in prog["steps"] for n in kf.walk(st))
 
 
+def has_shift_fill_on_sized_column(prog):
+    """D24 (program feature): `shift` with a literal fill value in a program whose tables have sized columns (Int8/16/32,
+    Float32).  For `col(i32).shift(1, fill_value=lit(-3: Int64))` the lazy schema of Polars says Int32, the data is Int64;
+    operators over such a column then panic ("cannot get ref Int64 from Int32"; pure-Polars reproduction in notes/polars_bugs.py)."""
+    from . import kf
+
+    sized = any(dt in ("Int8", "Int16", "Int32", "UInt8", "UInt16", "UInt32", "Float32") for ts in prog["tables"] for _cn, dt in ts["schema"])
+    return sized and any(
+        n.get("k") == "fn" and n.get("op") == "shift" and len(n.get("a") or ()) >= 3 and isinstance(n["a"][2], dict) and n["a"][2].get("k") == "lit" and n["a"][2].get("v") is not None
+        for st in prog["steps"]
+        for n in kf.walk(st)
+    )
+
+
 def has_literal_case_under_operator(prog):
     """D16 (third trigger, program feature): an operator one of whose operands is a case expression with only
     literal branch values while all its other operands are literals (or such case expressions).  Polars
@@ -376,7 +390,9 @@ def run_program(prog, backends=("pol", "sqlite"), opts=None, be_cache=None) -> O
             real_exc = None
             try:
                 new = rr.apply(st)
-            except Exception as e:
+            except (KeyboardInterrupt, SystemExit):
+                raise
+            except BaseException as e:  # collect() exports inside the verb: a pyo3 PanicException derives from BaseException
                 real_exc = e
             stm, _au = M.SQL.end()
             if stm and be == "sqlite":
@@ -542,6 +558,15 @@ def run_program(prog, backends=("pol", "sqlite"), opts=None, be_cache=None) -> O
                 out.add("san:I4", be, None, p, verb="export")
             out.source_frames_checked = len(prog["tables"])
         out.stats[be] = {"ref_excluded": ref_excluded}
+    # ---- D24: engine bug exclusion keyed by program feature + message
+    if has_shift_fill_on_sized_column(prog):
+        kept = []
+        for f in out.findings:
+            if f.backend == "pol" and f.kind.startswith("exc:pol") and f.exc == "PanicException" and "cannot get ref" in f.detail:
+                out.excluded["pol"] = "D24"
+                continue
+            kept.append(f)
+        out.findings = kept
     # ---- D16: engine bug exclusion keyed by program feature
     kept = []
     for f in out.findings:
